@@ -1060,7 +1060,7 @@ void UniCompiler::emit_3i(UniOpRRR op, const Gp& dst, const Operand_& src1_, con
       case UniOpRRR::kRol: {
         if (has_bmi2()) {
           uint32_t reg_size = dst.size() * 8u;
-          uint32_t imm = (reg_size - b.value_as<uint32_t>()) & Support::lsb_mask<uint32_t>(reg_size);
+          uint32_t imm = (reg_size - b.value_as<uint32_t>()) & (reg_size - 1u);
           cc->rorx(dst, a, imm);
         }
         else {
